@@ -90,11 +90,13 @@ class LayeredTides(TidesBase):
         # Pull out tidal inputs
         for layer in self.world:
             if layer.is_tidal:
-                get_tidal_scale = lambda: layer.tidal_scale
+                # Bind the current layer through a default argument: a plain `lambda: layer....` looks `layer` up when it is
+                #    called, i.e., after this loop has finished, and every layer's getters would return the last layer's values.
+                get_tidal_scale = lambda layer=layer: layer.tidal_scale
                 # This system assumes that density, radius, and gravity will not change after initialization
-                get_radius = lambda: layer.radius
-                get_bulk_density = lambda: layer.density_bulk
-                get_surf_gravity = lambda: layer.gravity_surface
+                get_radius = lambda layer=layer: layer.radius
+                get_bulk_density = lambda layer=layer: layer.density_bulk
+                get_surf_gravity = lambda layer=layer: layer.gravity_surface
 
                 for param in [get_tidal_scale, get_radius, get_bulk_density, get_surf_gravity]:
                     if param is None:
